@@ -51,7 +51,25 @@ func (s *FactSet) add(f Fact) {
 		return
 	}
 	f = normFact(f)
+	if _, ok := s.M[negKey(f)]; ok {
+		// f and its negation: the point is unreachable
+		*s = bottomSet()
+		return
+	}
 	s.M[f.String()] = f
+}
+
+// negKey returns the key of the (normalised) negation of a normalised fact.
+func negKey(f Fact) string {
+	if f.T.Op == "bin" && (f.T.Name == "<" || f.T.Name == "<=") && f.Pol && !isFloatTerm(f.T) {
+		op := "<"
+		if f.T.Name == "<" {
+			op = "<="
+		}
+		n := &Term{Op: "bin", Name: op, Args: []*Term{f.T.Args[1], f.T.Args[0]}}
+		return Fact{n, true}.String()
+	}
+	return Fact{f.T, !f.Pol}.String()
 }
 
 func (s *FactSet) addAll(o FactSet) {
@@ -62,8 +80,11 @@ func (s *FactSet) addAll(o FactSet) {
 		*s = bottomSet()
 		return
 	}
-	for k, v := range o.M {
-		s.M[k] = v
+	for _, v := range o.M {
+		s.add(v)
+		if s.Bottom {
+			return
+		}
 	}
 }
 
@@ -329,7 +350,7 @@ func (fx *Facts) valueFacts(v ssa.Value, want Want, depth int, visiting map[ssa.
 	case *ssa.Call:
 		s := emptySet()
 		s.add(fx.atom(v, want))
-		if fn := x.Common().StaticCallee(); fn != nil && fn.Blocks != nil && depth < fx.MaxDepth {
+		if fn := x.Common().StaticCallee(); fn != nil && fn.Blocks != nil && fx.depthOK(depth) {
 			sum := fx.retFacts(fn, 0, want, depth+1)
 			s.addAll(substSet(sum, callActuals(x)))
 		}
@@ -338,7 +359,7 @@ func (fx *Facts) valueFacts(v ssa.Value, want Want, depth int, visiting map[ssa.
 		s := emptySet()
 		s.add(fx.atom(v, want))
 		if c, ok := x.Tuple.(*ssa.Call); ok {
-			if fn := c.Common().StaticCallee(); fn != nil && fn.Blocks != nil && depth < fx.MaxDepth {
+			if fn := c.Common().StaticCallee(); fn != nil && fn.Blocks != nil && fx.depthOK(depth) {
 				sum := fx.retFacts(fn, x.Index, want, depth+1)
 				s.addAll(substSet(sum, callActuals(c)))
 			}
@@ -405,7 +426,7 @@ func (fx *Facts) retFacts(fn *ssa.Function, idx int, want Want, depth int) FactS
 		if !ok || idx >= len(ret.Results) {
 			continue
 		}
-		vf := fx.valueFacts(ret.Results[idx], want, depth, map[ssa.Value]bool{})
+		vf := fx.valueFacts(unspill(ret, idx), want, depth, map[ssa.Value]bool{})
 		if vf.Bottom {
 			continue
 		}
@@ -701,7 +722,7 @@ func (fx *Facts) retPaths(fn *ssa.Function, idx int, want Want) []RetPath {
 		if in.Bottom {
 			continue
 		}
-		fx.valuePaths(ret.Results[idx], want, in, instrPos(ret), &out, 0)
+		fx.valuePaths(unspill(ret, idx), want, in, instrPos(ret), &out, 0)
 	}
 	return out
 }
@@ -764,4 +785,29 @@ func (fx *Facts) paramLift(local FactSet, callee *ssa.Function, c ssa.CallInstru
 		}
 	}
 	return s
+}
+
+// depthOK: summaries are memoised per function, so they must not depend on the depth at which
+// they were first requested; recursion is cut by the in-progress set only (MaxDepth <= 0 = unbounded).
+func (fx *Facts) depthOK(depth int) bool { return true }
+
+// unspill: in functions with defer+recover go/ssa stores each result into an alloc before
+// running the defers and returns a load of it; recover the value stored in the same block.
+func unspill(ret *ssa.Return, idx int) ssa.Value {
+	v := ret.Results[idx]
+	u, ok := v.(*ssa.UnOp)
+	if !ok || u.Op != token.MUL {
+		return v
+	}
+	a, ok := u.X.(*ssa.Alloc)
+	if !ok {
+		return v
+	}
+	instrs := ret.Block().Instrs
+	for i := len(instrs) - 1; i >= 0; i-- {
+		if st, ok := instrs[i].(*ssa.Store); ok && st.Addr == a {
+			return st.Val
+		}
+	}
+	return v
 }
